@@ -153,9 +153,10 @@ def families(tier):
         parts = [q for p in parts for q in ([p + ["a2 == %d" % v] for v in (-1, 0, 1)] if ("x2 == 4" in p and "x3 == 4" in p) else [p])]
         parts = [p + ["dord == 0"] for p in parts] + [["cb == 3", "x1 == 2", "x2 == %d" % NOPP, "rx == 0", "dord == 1", "b1 == %d" % b] for b in range(3)]
     else:
-        pre += ["t1 >= 4", "c3 == %d" % NOPC, "b3 == 0", "size <= 3", "b1 <= 1", "a2 <= 1", "b2 <= 1",
+        # sized to finish inside the wall budget on 16 cores: a second completion step only with the gated callbacks (cb 3)
+        pre += ["t1 >= 4", "c3 == %d" % NOPC, "b3 == 0", "size <= 2", "b1 <= 1", "a2 <= 1", "b2 <= 1", "cb == 3 or c2 == %d" % NOPC,
                 "x3 == %d or (x2 <= 1 and 2 <= x3 <= 3) or (2 <= x2 <= 3 and x3 <= 1) or (x2 == 6 and x3 <= 1) or (x2 == 4 and x3 == 4)" % NOPP, "a3 <= 1", "t == 0 or t >= 4"]
-        parts = refine(parts_product(cb=(1, 3), x1=range(4), x2=range(NOPP + 1), rx=(0, 1)), ["x2 == 0", "x2 == 1"], "c1", range(NOPC + 1))
+        parts = [p + ["c1 == %d" % c] for p in parts_product(cb=(1, 3), x1=range(4), x2=range(NOPP + 1), rx=(0, 1)) for c in range(NOPC + 1)]
     return [Family(name="gather", fn="tpl_gather", params=P, pre=pre, parts=parts,
                    twin_pre=["cb == 3", "x1 == 2", "x2 == 0", "x3 == %d" % NOPP, "rx == 0", "c1 == 0", "c2 == %d" % NOPC],
                    twin_args=[2, 3, 2, 0, 0, NOPP, 0, 0, 0, 0, NOPC, 0, NOPC, 0, 9, 9, 0])]
